@@ -44,6 +44,26 @@ def run(tier, seed):
             else:
                 check("power-mixed", p + u, "_close((1 * (%s * %s) ** %d).unprefixed(), (1 * (%s ** %d * %s ** %d)).unprefixed())" % (p, u, n, p, n, u, n))
             check("divide", p + u, "_close(((6 * %s) / (2 * (%s * %s))).unprefixed(), (3 / %s.quantify()) * One)" % (u, p, u, p))
+            # roots undo powers together with the prefix: ((p*u)**n).root(n) is p*u, also for n = 1 and negative n
+            m = rng.choice([1, 2, 3, -2])
+            if ns[u].prefix.base in (0, ns[p].base):
+                check("root-of-power", p + u, "((%s * %s) ** %d).root(%d) is (%s * %s)" % (p, u, m, m, p, u))
+                check("root-one", p + u, "(%s * %s).root(1) is (%s * %s)" % (p, u, p, u))
+    # converting INTO a prefixed unit is converting into the bare unit and dividing by the prefix value, whatever the planner does with the unit
+    # (1e-3: the prefixed and the bare request may take different declared routes, which agree to 1e-5 only; a lost prefix is a factor >= 2)
+    targets = [t for t in ("Liter", "Calorie", "Hectare", "Horsepower", "Acre", "Gallon", "PSI", "Newton", "Meter", "Joule") if t in ns]
+    sources = {"Liter": "Gallon", "Calorie": "Joule", "Hectare": "Acre", "Horsepower": "Watt", "Acre": "Hectare", "Gallon": "Liter", "PSI": "Pascal", "Newton": "PoundForce",
+               "Meter": "Foot", "Joule": "Calorie"}
+    for p in (prefixes if tier != "quick" else rng.sample(prefixes, 6)):
+        for t in targets:
+            srcu = sources[t]
+            if srcu not in ns:
+                continue
+            check("prefixed-target", p + t, "abs(float((3 * %s).in_unit(%s * %s).magnitude) * float(%s.quantify()) / float((3 * %s).in_unit(%s).magnitude) - 1) < 1e-3" % (srcu, p, t, p, srcu, t))
+            check("prefixed-source", p + t, "abs(float((3 * (%s * %s)).in_unit(%s).magnitude) / float(%s.quantify()) / float((3 * %s).in_unit(%s).magnitude) - 1) < 1e-3" % (p, srcu, t, p, srcu, t))
+    for p in []:
+        for u in []:
+            pass
     # a prefixed dimensionless unit (p*One, or the leftover of a cancelled quotient) is still a prefix factor
     for p in prefixes:
         for u in unit_sample[:6]:
